@@ -46,6 +46,30 @@ theorem variables_carried (gen : Nat → Str) (s : Nat × Option JO) (loc5 : Opt
       rw [get_del_ne _ _ (by decide), get_del_ne _ _ (by decide), get_set_ne _ _ _ (by decide)]
     rw [this]
 
+/-- **From 13.0 to 13.5**: a `send_msg` action with a templating object that goes through 13.1 (a UUID is put on the templating
+object), 13.4 and 13.5 ends with `template_variables` = the variables it started with, as strings, and `template` = the templating's
+template — whatever UUIDs are generated and whatever the localization holds. -/
+theorem variables_carried_from_13_0 (gen : Nat → Str) (n : Nat) (s : Nat × Option JO) (loc5 : Option JO) (a t : JO)
+    (ht : isType "send_msg" a = true) (h : get "templating".toList a = some (.obj t)) :
+    let a1 := (act13_1 gen n a).2
+    let a4 := (act13_4 gen s a1).2
+    get "template_variables".toList (act13_5 loc5 a4).2 = some (.arr (strArr (strs (varsOf t)))) ∧
+    get "template".toList (act13_5 loc5 a4).2 = some ((get "template".toList t).getD .null) := by
+  intro a1 a4
+  -- after 13.1: the same action with a `uuid` on the templating object
+  have h1 : a1 = set "templating".toList (.obj (set "uuid".toList (.str (gen n)) t)) a := by
+    show (act13_1 gen n a).2 = _
+    unfold act13_1
+    rw [if_pos ht, h]
+  have ht1 : isType "send_msg" a1 = true := by
+    rw [h1]; unfold isType at ht ⊢; rw [get_set_ne _ _ _ (by decide)]; exact ht
+  have hg1 : get "templating".toList a1 = some (.obj (set "uuid".toList (.str (gen n)) t)) := by
+    rw [h1]; exact get_set_eq _ _ _
+  have := variables_carried gen s loc5 a1 _ ht1 hg1
+  simp only [varsOf, get_set_ne _ _ _ (show "uuid".toList ≠ "variables".toList by decide),
+    get_set_ne _ _ _ (show "uuid".toList ≠ "template".toList by decide)] at this
+  exact this
+
 /-! ## translations -/
 
 theorem itGet_set (it : JO) (prop : Str) (vs : List Str) : itGet (set prop (.arr (strArr vs)) it) prop = some vs := by
